@@ -2,16 +2,24 @@
 (***************************************************************************)
 (* Trace validation for SamplesOps (property C19, code -> spec).           *)
 (* A trace file is a JSON array of EVENTS, one per outermost call of        *)
-(* Samples.burnthin / .funvals / .vector / .parameters observed in a real   *)
-(* execution (the repository's own tests, seeded random drivers):           *)
+(* Samples.burnthin / .funvals / .vector / .parameters / .compute_rhat      *)
+(* observed in a real execution (the repository's own tests, seeded random  *)
+(* drivers):                                                                *)
 (*   [op, b, t, err,                                                        *)
 (*    pre  |-> [n, par, vec, fun1d],   the object the call was made on      *)
 (*    post |-> [n, par, vec, samegeom],                                     *)
-(*    cols |-> positions (0-based) of the result's columns in pre]          *)
+(*    cols |-> positions (0-based) of the result's columns in pre,          *)
+(*    frame |-> [recv, nl_pre, nl_post, ids, args]]  deep fingerprints:     *)
+(*       recv - receiver unchanged by the call; for compute_rhat the length *)
+(*       of the caller's list of chains before / after, ids - same objects  *)
+(*       in the same order, args - their contents unchanged]                *)
 (* Every event must be a transition of SamplesOps: Burnthin(b, t) in the    *)
 (* closed form that TLC checks against the element-wise slice on the        *)
 (* bounded model (StepIndices), flags and geometry preserved; conversions   *)
-(* follow the flag automaton and keep the number of samples.                *)
+(* follow the flag automaton and keep the number of samples.  Every event,   *)
+(* refused or not, satisfies the step relation of the action property Frame *)
+(* of SamplesOps (FrameStep: no existing object altered, the caller's list  *)
+(* altered by no library action).                                           *)
 (***************************************************************************)
 EXTENDS Integers, Sequences, TLC, Json, IOUtils
 
@@ -43,10 +51,17 @@ IsParameters(e) ==
     ~e.err => /\ e.post.n = e.pre.n /\ e.post.samegeom
               /\ e.post.par = TRUE /\ e.post.vec = TRUE
 
-IsEvent(e) == CASE e.op = "burnthin"   -> IsBurnthin(e)
-                [] e.op = "funvals"    -> IsFunvals(e)
-                [] e.op = "vector"     -> IsVector(e)
-                [] e.op = "parameters" -> IsParameters(e)
+\* FrameStep of SamplesOps on the recorded fingerprints
+Framed(e) == /\ e.frame.recv                              \* fo'[r] = fo[r]
+             /\ e.frame.nl_post = e.frame.nl_pre /\ e.frame.ids   \* fl' = fl
+             /\ e.frame.args                              \* \A k : fo'[fl[k]] = fo[fl[k]]
+
+IsEvent(e) == /\ Framed(e)
+              /\ CASE e.op = "burnthin"   -> IsBurnthin(e)
+                   [] e.op = "funvals"    -> IsFunvals(e)
+                   [] e.op = "vector"     -> IsVector(e)
+                   [] e.op = "parameters" -> IsParameters(e)
+                   [] e.op = "rhat"       -> TRUE            \* values: conformance replay (FRhat)
 
 Init == i = 1
 Next == i <= Len(Trace) /\ i' = i + 1
